@@ -104,7 +104,7 @@ CLAIMED = {
             "formats, destination kinds, source kinds and readers on the real API (environment-answer enumeration)", NOTE),
     "C17": ("Fault enumeration at the system-call boundary (LD_PRELOAD shim native/faultfs.c interposing write, rename*, "
             "sendfile, copy_file_range, open*, unlink, fsync for sandbox paths): full product of 4 formats x document "
-            "sizes (1, several, many write calls) x 17 destination names (incl. a symbolic link to a regular file and names near the 255-byte limit in multi-byte and ASCII characters) (relative, absolute, space, non-ASCII, '#', '?', '%20', '%', '&', '~', "
+            "sizes (1, several, many write calls) x 18 destination names (incl. a non-ASCII name in composed and in decomposed Unicode form, a symbolic link to a regular file and names near the 255-byte limit in multi-byte and ASCII characters) (relative, absolute, space, non-ASCII, '#', '?', '%20', '%', '&', '~', "
             "';', ':', sub-directory; given as str, pathlib.Path and bytes) x destination absent / pre-existing / pre-existing after this very document had been saved there before x every schedule with <= 1 (thorough 2) deviations from the "
             "fault-free call sequence: k-th write fails or is short for every k, the move fails once, fails every time (EACCES / EPERM) or answers EXDEV and the "
             "copy fallback's steps fail, close fails, temp-file removal fails, the serialiser itself raises.  Success must create "
